@@ -1982,6 +1982,19 @@ func (s *Switch) reforwardSettleFails(fwdPkgs []*channeldb.FwdPkg) {
 					htlc: msg,
 				}
 
+				// If the failure message lacks an HMAC (but
+				// includes the 4 bytes for encoding the message
+				// and padding lengths), then it was received
+				// as an UpdateFailMalformedHTLC. Just like the
+				// link does in processRemoteSettleFails, we
+				// signal that the switch needs to convert it
+				// to an actual error by encrypting it as if we
+				// were the originating hop.
+				convertedSize := lnwire.FailureMessageLength + 4
+				if len(msg.Reason) == convertedSize {
+					failPacket.convertedError = true
+				}
+
 				// Add the packet to the batch to be forwarded, and
 				// notify the overflow queue that a spare spot has been
 				// freed up within the commitment state.
